@@ -135,7 +135,7 @@ def run(spec: str | Path, cfg: str | Path | None = None, *, cfg_text: str | None
                 res.error_kind, res.error_name = "invariant", m.group(1)
             elif "Deadlock reached" in ln:
                 res.error_kind = "deadlock"
-            elif "Temporal properties were violated" in ln or "Action property" in ln:
+            elif re.search(r"Temporal propert(y|ies) .*violated", ln) or "Action property" in ln:
                 res.error_kind = "property"
                 m2 = re.search(r"Action property (\w+)", ln)
                 if m2:
